@@ -16,7 +16,9 @@ from vlib import build, gen
 
 RULE = ("cases are (engine spec with General activation, batch of 1-12 rows (thorough: up to 64), way of presenting the "
         "batch); non-trivial when the batch has >= 2 rows and at least one enabled output is finite in some row; "
-        "lock-previous specs with a NaN-producing row after a valid one are counted separately; distinct by the case")
+        "lock-previous specs with a NaN-producing row after a valid one are counted separately; distinct by the case. "
+        "Long batches: N in {257 .. 131073} rows tiled from 2-7 generated rows, lock-previous forced off; every row must "
+        "equal the short batch's row with the same input; non-trivial when some output is finite")
 ASSUMPTIONS = [
     "both engines are built independently from the same spec and restarted; the scalar path is the reference for the "
     "batch path (a defect common to both is C01's business)",
@@ -190,6 +192,88 @@ def check_batch(ctx, case) -> None:
                       "mode": mode, "outputs_scalar": so, "lock_previous": [v.get("lock_previous") for v in spec["outputs"]]})
 
 
+def check_long_batch(ctx, case) -> None:
+    """case = {"spec", "rows": n distinct rows, "N", "mode"}: one batch of N rows, row i = rows[i mod n], on an engine
+    without lock-previous (forced off: then, within one processing step, a row's results depend on that row only).
+    Rows with equal inputs must have equal activation degrees and output values, however long the batch is; the first
+    n rows are the short batch that check_batch compares with the row-by-row run."""
+    import copy
+
+    spec, rows, N, mode = copy.deepcopy(case["spec"]), case["rows"], int(case["N"]), case["mode"]
+    for v in spec["outputs"]:
+        v["lock_previous"] = False
+    n = len(rows)
+    maxres = max([int(v["defuzzifier"].get("resolution", 1)) for v in spec["outputs"]] + [1])
+    if N * maxres > 2e7:  # memory: the library materialises an (N x resolution) matrix per activated term
+        N = max(n + 1, int(2e7 // maxres))
+    sel = np.arange(N) % n
+    M = np.array([[float(x) for x in r] for r in rows], dtype=float)[sel]
+    ctx.ev()
+    try:
+        short = run_batch(spec, rows, "matrix")
+    except Exception:  # noqa: BLE001 - engines that cannot process the short batch are check_batch's business
+        ctx.cls("long_batch_short_batch_raises")
+        return
+    eng = build.mk_engine(spec)
+    eng.restart()
+    if mode == "per_var":
+        for j, v in enumerate(eng.input_variables):
+            v.value = M[:, j].copy()
+    else:
+        eng.input_values = M.copy()
+    try:
+        eng.process()
+    except Exception as ex:  # noqa: BLE001
+        import traceback
+
+        ctx.fail(f"only-long-batch-raises:{type(ex).__name__}", case, {"exception": f"{ex}"[:300],
+                                                                       "tb": traceback.format_exc()[-600:]})
+        return
+    ctx.cls("long_batch>65536" if N > 65536 else "long_batch<=65536")
+
+    def compare(label, got, first, extra):
+        g = np.asarray(got, dtype=float).reshape(-1)
+        if g.size == 1:
+            g = np.full(N, g[0])
+        if g.size != N:
+            ctx.fail("long-batch-shape:" + label, case, dict(extra, got=int(g.size), want=N))
+            return False
+        want = np.array(first, dtype=float)[sel]
+        with np.errstate(all="ignore"):
+            bad = ~((g == want) | (np.isnan(g) & np.isnan(want))
+                    | (np.abs(g - want) <= 1e-9 * np.maximum(1.0, np.maximum(np.abs(g), np.abs(want)))))
+        if bad.any():
+            i = int(np.argwhere(bad)[0][0])
+            ctx.fail("long-batch-" + label, case, dict(extra, row=i, same_input_as_row=int(sel[i]), wrong_rows=int(bad.sum()),
+                                                       got=float(g[i]), short_batch=float(want[i]), input=rows[int(sel[i])]))
+            return False
+        return True
+
+    so, _, sd = short
+    finite = False
+    for oi, v in enumerate(eng.output_variables):
+        if not spec["outputs"][oi].get("enabled", True):
+            continue
+        compare("output-value", v.value, so[oi], {"variable": v.name})
+        finite = finite or any(math.isfinite(x) for x in so[oi])
+    for bi, rb in enumerate(eng.rule_blocks):
+        if not spec["blocks"][bi].get("enabled", True):
+            continue
+        for ri, r in enumerate(rb.rules):
+            compare("activation-degree", r.activation_degree, sd[bi][ri], {"block": bi, "rule": ri})
+    if finite and n >= 2:
+        ctx.nt(["long", case["spec"], rows, N], {"rows": rows[:3], "N": N, "mode": mode})
+
+
+@st.composite
+def long_cases(draw):
+    spec = draw(gen.engine(activation=gen.activation_general(), functions=True))
+    n = draw(st.sampled_from([2, 3, 5, 7]))
+    rows = [draw(gen.input_row(spec)) for _ in range(n)]
+    return {"spec": spec, "rows": rows, "N": draw(st.sampled_from([65539, 65537, 70001, 131073, 4099, 257])),
+            "mode": draw(st.sampled_from(["matrix", "per_var"]))}
+
+
 @st.composite
 def cases(draw, maxrows=12):
     spec = draw(gen.engine(activation=gen.activation_general(), functions=True))
@@ -214,6 +298,7 @@ def cases(draw, maxrows=12):
 
 def shard(ctx, shard, nshards, ex, maxrows):
     ctx.hyp("batch", cases(maxrows), check_batch, ex)
+    ctx.hyp("long", long_cases(), check_long_batch, max(ex // 25, 12))
 
 
 def run(ctx) -> None:
@@ -231,3 +316,5 @@ def run(ctx) -> None:
 def replay(ctx, prop, case) -> None:
     if prop == "batch":
         ctx.direct(prop, check_batch, [case])
+    if prop == "long":
+        ctx.direct(prop, check_long_batch, [case])
